@@ -88,6 +88,10 @@ func (g *Gen) Func(depth int) string {
 	for i := range args {
 		args[i] = g.Expr(depth)
 	}
+	if f.n == "re-match" && n == 2 && g.T.Coin() {
+		// patterns, including ones Go's regexp package rejects (XSD escapes, stray metacharacters)
+		args[1] = g.pick([]string{"'[a-z]+'", "'^eth[0-9]$'", "'['", "'('", "'*a'", "'\\p{IsBasicLatin}'", "'a{2,1}'", "'\\i\\c*'", "'.*'"})
+	}
 	sp := ""
 	if g.T.Rare(8) {
 		sp = " "
